@@ -349,7 +349,13 @@ func (client *client) writeLoop() {
 			if err != nil {
 				return
 			}
-			srv.statsManager.packetSent(packet, client.opts.ClientID)
+			// The client id is assigned by the goroutine handling the handshake; it must not be read
+			// here before the client is connected (packets of the handshake are accounted without id).
+			var clientID string
+			if client.IsConnected() {
+				clientID = client.opts.ClientID
+			}
+			srv.statsManager.packetSent(packet, clientID)
 			if _, ok := packet.(*packets.Disconnect); ok {
 				_ = client.rwc.Close()
 				return
